@@ -218,6 +218,20 @@ class SyncedList(SyncedCollection, MutableSequence):
         self._load()
         return reversed(self._data)
 
+    # The Sequence mixins iterate over the collection and compare element by
+    # element; comparing a nested collection reloads the data in place in the
+    # middle of that iteration, so if the resource changes meanwhile elements
+    # are skipped or seen twice. Search a snapshot of the data instead.
+
+    def __contains__(self, value):
+        return value in self()
+
+    def index(self, value, *args):  # noqa: D102
+        return self().index(value, *args)
+
+    def count(self, value):  # noqa: D102
+        return self().count(value)
+
     def __iadd__(self, iterable):
         with self._load_and_save, self._suspend_sync:
             # Convert input to a list so that iterators work as well as
